@@ -65,7 +65,7 @@ Var(i) == GW.vars[i]
 R(i) == res[i]
 CropH == Hi(GW, "face", mask, 1) - Lo(GW, "face", mask, 1) + 1
 CropW == Hi(GW, "face", mask, 2) - Lo(GW, "face", mask, 2) + 1
-Shift(o, x) == IF x = MISSING THEN MISSING ELSE x + Off(o)
+ShiftObj(o, x) == IF x = MISSING THEN MISSING ELSE x + Off(o)
 
 \* ------------------------------------------------------------ C08
 SelectedKept ==
@@ -73,7 +73,7 @@ SelectedKept ==
           OrigOfResult(GW, mask, r) \in mask =>
              \A ex \in Indices(OtherShape(Var(i))) :
                 At(R(i), FullIdx(Var(i), ex, UnravelRM(<<CropH, CropW>>, r))) =
-                   Shift(obj, Tag(GW, Var(i), ex, OrigOfResult(GW, mask, r)))
+                   ShiftObj(obj, Tag(GW, Var(i), ex, OrigOfResult(GW, mask, r)))
 UnselectedBlank ==
   G => \A i \in {1, 2} : \A r \in 0..(CropH * CropW - 1) :
           OrigOfResult(GW, mask, r) \notin mask =>
@@ -82,14 +82,14 @@ UnselectedBlank ==
 UnmaskableCroppedOnly ==
   G => \A r \in 0..(CropH * CropW - 1) : \A ex \in Indices(OtherShape(Var(3))) :
           At(R(3), FullIdx(Var(3), ex, UnravelRM(<<CropH, CropW>>, r))) =
-             Shift(obj, Tag(GW, Var(3), ex, OrigOfResult(GW, mask, r)))
+             ShiftObj(obj, Tag(GW, Var(3), ex, OrigOfResult(GW, mask, r)))
 NonSpatialUntouched ==
-  G => R(4).shape = Var(4).shape /\ R(4).data = [p \in 1..2 |-> Shift(obj, VarAtIdx(Var(4), <<p - 1>>))]
+  G => R(4).shape = Var(4).shape /\ R(4).data = [p \in 1..2 |-> ShiftObj(obj, VarAtIdx(Var(4), <<p - 1>>))]
 \* no value from outside the region survives in a maskable variable
 NothingLeaks ==
   G => \A i \in {1, 2} : \A p \in 1..Len(R(i).data) :
           R(i).data[p] # MISSING =>
-             \E n \in mask : \E ex \in Indices(OtherShape(Var(i))) : R(i).data[p] = Shift(obj, Tag(GW, Var(i), ex, n))
+             \E n \in mask : \E ex \in Indices(OtherShape(Var(i))) : R(i).data[p] = ShiftObj(obj, Tag(GW, Var(i), ex, n))
 \* the crop is the bounding range of the selection: the first and last row and column of the result hold a selected cell
 CropIsTight ==
   G => /\ \A a \in {0, CropH - 1} : \E r \in 0..(CropH * CropW - 1) :
